@@ -25,7 +25,7 @@ RULE = ("Hypothesis: tensors of order 2-5 with sides 1-4 (<= 400 entries; TT-mat
         "each tucker/TT/TT-matrix/TR case through the function or the estimator class (Tucker, TensorTrain, TensorTrainMatrix, "
         "TensorRing.fit_transform); data class pm1 (+-1 entries, tied singular values); monotone sub-checks: error after k>=1 HOOI sweeps <= error of the "
         "same call with n_iter_max=0 (HOSVD start) * (1+1e-9) + 1e-12*||X||; history sub-checks decompose a small tensor first and then the case tensor with the same "
-        "rank list object / estimator and judge the second result against the original request. "
+        "rank list object / estimator and judge the second result against the original request; complex128 tensors (order 2-4) at sufficient rank through tensor_train / tensor_ring / tucker must reconstruct to 1e-8*||X||. "
         "Oracle: sigma of mode unfoldings (Tucker) / sequential unfoldings (TT, TT-matrix after the interleaving "
         "permutation) / the start-mode unfolding (TR) from numpy.linalg.svd; "
         "max_n tail_n - slack <= ||X - Xhat||_F <= sqrt(sum_n tail_n^2) + slack with slack = 1e-8*||X|| (1e-5 with symeig); "
@@ -746,6 +746,42 @@ def _with_first(draw, base, entry):
     return case
 
 
+# ------------------------------------------------------------------ complex128 tensors at sufficient rank
+@st.composite
+def _complex_case(draw):
+    order = draw(st.integers(2, 4))
+    shape = [draw(st.integers(1, 4)) for _ in range(order)]
+    return {"shape": shape, "seed": draw(st.integers(0, 10**6)), "algo": draw(st.sampled_from(["tt", "tr", "tucker", "tt", "tr"])),
+            "kindc": draw(st.sampled_from(["normal", "gauss_int"])), "slack_rank": draw(st.integers(0, 2))}
+
+
+def o_complex_exact(case):
+    shape = case["shape"]
+    rng = np.random.RandomState(case["seed"])
+    if case["kindc"] == "normal":
+        Xc = rng.standard_normal(shape) + 1j * rng.standard_normal(shape)
+    else:
+        Xc = (rng.randint(-3, 4, shape) + 1j * rng.randint(-3, 4, shape)).astype(np.complex128)
+    nrm = max(float(np.linalg.norm(Xc)), 1e-300)
+    d = len(shape)
+    full_tt = [1] + [min(int(np.prod(shape[:k])), int(np.prod(shape[k:]))) + case["slack_rank"] for k in range(1, d)] + [1]
+    if case["algo"] == "tt":
+        res = tensor_train(Xc.copy(), rank=list(full_tt))
+        rec = ref.tt_dense([as_array(c, "complex/tt/core") for c in res.factors])
+    elif case["algo"] == "tr":
+        # boundary rank 1 makes the ring a train; later ranks exactly the unfolding sizes (tensor_ring rejects larger ones)
+        res = tensor_ring(Xc.copy(), rank=[1] + [min(int(np.prod(shape[:k])), int(np.prod(shape[k:]))) for k in range(1, d)] + [1])
+        rec = ref.tr_dense([as_array(c, "complex/tr/core") for c in res.factors])
+    else:
+        core, fs = tucker(Xc.copy(), rank=list(shape), n_iter_max=2)
+        rec = as_array(core, "complex/tucker/core")
+        for m, f in enumerate(fs):
+            rec = ref.mode_dot_matrix(rec, as_array(f, "complex/tucker/factor"), m)
+    err = float(np.linalg.norm(np.asarray(rec) - Xc))
+    check(err <= 1e-8 * nrm, f"complex/{case['algo']}/exact_at_sufficient_rank", lambda: f"||X - Xhat|| = {err:.3e} with ||X|| = {nrm:.3e}, shape {shape}")
+    return {"nontrivial": sum(1 for x in shape if x > 1) >= 2, "labels": [f"algo={case['algo']}", f"order={d}", f"kind={case['kindc']}"]}
+
+
 def subchecks(tier):
     subs = []
     for svd, tag in (("truncated_svd", "truncated"), ("symeig_svd", "symeig")):
@@ -786,4 +822,6 @@ def subchecks(tier):
         SubCheck("history/tr/ranks", _with_first(_tr_case("admissible", "any"), "tr"), _o_tr("ranks"), quick=300, thorough=2000),
         SubCheck("history/tr/equality", _with_first(_tr_case("nontrunc", "any"), "tr"), _o_tr("equality"), quick=300, thorough=2000),
     ]
+    # complex128 data (the SVD front end's phase resolution must not change the product)
+    subs.append(SubCheck("complex/exact", _complex_case(), o_complex_exact, quick=300, thorough=2500))
     return subs
